@@ -651,7 +651,7 @@ def _contracts(tier):
     yield ("RxClockDataRecovery", "safety", rx_cdr_safety)
     yield ("RxPipeline", "usb_io_domain", rx_pipeline_usb_io)
     yield ("GatewarePHY", "pullup_pulldown_vbus", phy(True, True, True))
-    yield ("GatewarePHY", "pullup_only", phy(True, False, False))
     if tier == "thorough":
+        yield ("GatewarePHY", "pullup_only", phy(True, False, False))
         yield ("GatewarePHY", "bare", phy(False, False, False))
         yield ("GatewarePHY", "pullup_vbus", phy(True, False, True))
